@@ -8,6 +8,7 @@ import (
 	"time"
 
 	"hop.computer/hop/common"
+	"hop.computer/hop/pkg/verifhook"
 	"hop.computer/hop/transport"
 
 	"github.com/sirupsen/logrus"
@@ -71,6 +72,7 @@ var _ Tube = &Unreliable{}
 // frames were handed off; the Muxer sender owns actual transport writes.
 func (u *Unreliable) sender() {
 	for b := range u.send.C {
+		verifhook.Pause("tubes.Unreliable.sender:loop")
 		u.log.Trace("handing packet to muxer")
 		u.sendQueue <- b
 	}
@@ -164,6 +166,7 @@ func (u *Unreliable) receiveInitiatePkt(pkt *initiateFrame) error {
 }
 
 func (u *Unreliable) receive(pkt *frame) error {
+	verifhook.Pause("tubes.Unreliable.receive:enter")
 	u.lifecycleMu.Lock()
 	defer u.lifecycleMu.Unlock()
 	if u.state.Load() == closed {
@@ -284,6 +287,7 @@ func (u *Unreliable) WriteMsgUDP(b, oob []byte, addr *net.UDPAddr) (n, oobn int,
 // the sender hands its queue to the Muxer. It does not wait for transport writes
 // or peer receipt. Future operations return io.EOF after buffered reads drain.
 func (u *Unreliable) Close() error {
+	verifhook.Pause("tubes.Unreliable.Close:enter")
 	u.lifecycleMu.Lock()
 	oldState := u.state.Swap(closed)
 	if oldState == closed {
@@ -291,6 +295,7 @@ func (u *Unreliable) Close() error {
 		return io.EOF
 	}
 	u.lifecycleMu.Unlock()
+	verifhook.Pause("tubes.Unreliable.Close:state-published")
 
 	if oldState == created {
 		close(u.stopInitiate)
@@ -326,6 +331,7 @@ func (u *Unreliable) Close() error {
 
 	close(u.send.C)
 
+	verifhook.Yield("tubes.Unreliable.Close:before-sender-join")
 	<-u.senderDone
 
 	close(u.closed)
